@@ -146,11 +146,56 @@ def _is_simple_arg(e):
     return False
 
 
+def _own_level(stmts, kinds):
+    """statements of the given kinds that belong to this loop level (not to a loop nested in it)"""
+    out = []
+    for st in stmts:
+        if isinstance(st, kinds):
+            out.append(st)
+        if isinstance(st, (ast.For, ast.While, ast.AsyncFor)):
+            out.extend(_own_level(st.orelse, kinds))
+            continue
+        if isinstance(st, (ast.FunctionDef, ast.AsyncFunctionDef, ast.ClassDef)):
+            continue
+        for fld in ("body", "orelse", "finalbody"):
+            b = getattr(st, fld, None)
+            if isinstance(b, list):
+                out.extend(_own_level(b, kinds))
+        for hnd in getattr(st, "handlers", []) or []:
+            out.extend(_own_level(hnd.body, kinds))
+        for case in getattr(st, "cases", []) or []:
+            out.extend(_own_level(case.body, kinds))
+    return out
+
+
+def _yields_in_tail_position(body):
+    """every `yield E` statement is the last thing done in an iteration of the loop around it: resuming the generator there
+    is what `continue` does in that loop"""
+    ok = [True]
+    def block(stmts, tail, in_loop):
+        for i, st in enumerate(stmts):
+            last = tail and i == len(stmts) - 1
+            if isinstance(st, ast.Expr) and isinstance(st.value, ast.Yield):
+                if not (last and in_loop):
+                    ok[0] = False
+            elif isinstance(st, (ast.For, ast.While)):
+                block(st.body, True, True)
+                block(st.orelse, last, in_loop)
+            elif isinstance(st, ast.If):
+                block(st.body, last, in_loop)
+                block(st.orelse, last, in_loop)
+            elif any(isinstance(x, ast.Yield) for x in ast.walk(st)):
+                ok[0] = False
+    block(body, False, False)
+    return ok[0]
+
+
 class _Helper:
-    def __init__(self, fn, cls):
+    def __init__(self, fn, cls, gen=False):
         self.fn = fn
         self.cls = cls
         self.name = fn.name
+        self.gen = gen
         deco = [ast.unparse(d) for d in fn.decorator_list]
         self.static = deco == ["staticmethod"]
         if deco and not self.static:
@@ -161,8 +206,10 @@ class _Helper:
         for sub in ast.walk(fn):
             if sub is not fn and isinstance(sub, (ast.FunctionDef, ast.AsyncFunctionDef, ast.ClassDef, ast.Lambda)):
                 raise _NotInlinable("nested scope")
-            if isinstance(sub, (ast.Yield, ast.YieldFrom, ast.Await, ast.Global, ast.Nonlocal)):
+            if isinstance(sub, (ast.YieldFrom, ast.Await, ast.Global, ast.Nonlocal)) or (isinstance(sub, ast.Yield) and not gen):
                 raise _NotInlinable("generator / global")
+            if gen and isinstance(sub, ast.Return):
+                raise _NotInlinable("generator with a return statement")
             if isinstance(sub, ast.Call) and ((isinstance(sub.func, ast.Name) and sub.func.id == fn.name) or
                                               (isinstance(sub.func, ast.Attribute) and sub.func.attr == fn.name)):
                 raise _NotInlinable("recursive")
@@ -181,7 +228,14 @@ class _Helper:
         self.locals = _stored_names(fn) | set(self.params)
         # pure expression helper: a single `return <expr>`
         self.expr = body[0].value if len(body) == 1 and isinstance(body[0], ast.Return) and body[0].value is not None else None
-        if self.expr is None:
+        if gen:
+            self.expr = None
+            ys = [x for st in body for x in ast.walk(st) if isinstance(x, ast.Yield)]
+            ystmts = [x for st in body for x in ast.walk(st) if isinstance(x, ast.Expr) and isinstance(x.value, ast.Yield)]
+            if not ys or len(ys) != len(ystmts) or len(ys) > 2:
+                raise _NotInlinable("generator whose yields are not plain statements (or more than two of them)")
+            self.tail_yields = _yields_in_tail_position(body)
+        elif self.expr is None:
             _single_exit(copy.deepcopy(body), "__probe")     # raises if not inlinable
 
 
@@ -193,6 +247,7 @@ class Inliner:
         self.counter = 0
         self.report = []
         self.helpers = {}      # (cls or None, name) -> _Helper
+        self.gen_helpers = {}  # (cls or None, name) -> _Helper(gen=True): generator functions, dissolved into the loops over them
         self.nested = {}       # id(enclosing FunctionDef) -> {name: _Helper}: local functions that are only ever called
 
     def run(self):
@@ -218,7 +273,7 @@ class Inliner:
             qual = (cls_ + "." if cls_ else "") + fn_.name
             if qual not in self.known:
                 self._register(fn_, cls_)
-        if not self.helpers and not self.nested:
+        if not self.helpers and not self.nested and not self.gen_helpers:
             return self.tree
         for _ in range(4):
             changed = False
@@ -244,7 +299,7 @@ class Inliner:
             elif isinstance(sub, ast.Attribute):
                 refs[sub.attr] = refs.get(sub.attr, 0) + 1
         def keep(st, cls):
-            if isinstance(st, ast.FunctionDef) and (cls, st.name) in self.helpers and not refs.get(st.name):
+            if isinstance(st, ast.FunctionDef) and ((cls, st.name) in self.helpers or (cls, st.name) in self.gen_helpers) and not refs.get(st.name):
                 self.report.append("%s%s inlined at every call site" % (cls + "." if cls else "", st.name))
                 return False
             return True
@@ -275,6 +330,12 @@ class Inliner:
             self.nested.setdefault(id(outer), {})[name] = h
 
     def _register(self, fn, cls):
+        if any(isinstance(x, ast.Yield) for x in ast.walk(fn)):
+            try:
+                self.gen_helpers[(cls, fn.name)] = _Helper(fn, cls, gen=True)
+            except _NotInlinable as err:
+                self.report.append("%s%s not inlined: %s" % (cls + "." if cls else "", fn.name, err))
+            return
         try:
             self.helpers[(cls, fn.name)] = _Helper(fn, cls)
         except _NotInlinable as err:
@@ -505,7 +566,64 @@ class Inliner:
                           orelse=st.orelse, lineno=st.lineno)
             return ast.fix_missing_locations(ast.copy_location(new, st))
 
+        def gen_loop(st):
+            """for T in helper(args): B   with helper a generator function   ->   the helper's body with `T = E; B` in place of every
+            `yield E`.  Exactly the interleaving of the generator protocol, as long as B does not leave the loop with `break`
+            (and uses `continue` only where resuming the generator is `continue` in the helper's own loop)."""
+            if not (isinstance(st, ast.For) and isinstance(st.iter, ast.Call) and not st.orelse):
+                return None
+            f = st.iter.func
+            h, recv = None, None
+            if isinstance(f, ast.Name) and (None, f.id) in self.gen_helpers:
+                h = self.gen_helpers[(None, f.id)]
+            elif isinstance(f, ast.Attribute) and isinstance(f.value, ast.Name) and cls is not None and (cls, f.attr) in self.gen_helpers:
+                g = self.gen_helpers[(cls, f.attr)]
+                if f.value.id == self_name and not g.static:
+                    h, recv = g, f.value
+                elif f.value.id in (cls, "cls", self_name) and g.static:
+                    h = g
+            if h is None or (h.cls, h.name) == me:
+                return None
+            try:
+                if _own_level(st.body, (ast.Break,)):
+                    raise _NotInlinable("the loop over the generator is left with break")
+                if _own_level(st.body, (ast.Continue,)) and not h.tail_yields:
+                    raise _NotInlinable("continue in the loop over a generator that does more after its yield")
+                if any(isinstance(x, (ast.Yield, ast.YieldFrom)) for b_ in st.body for x in ast.walk(b_)):
+                    raise _NotInlinable("the consumer is a generator itself")
+                prelude, subst, rename, tag = self._bind(h, st.iter, recv)
+                stored = {x.id for b_ in st.body for x in ast.walk(b_) if isinstance(x, ast.Name) and isinstance(x.ctx, (ast.Store, ast.Del))}
+                stored |= {x.id for x in ast.walk(st.target) if isinstance(x, ast.Name)}
+                written = {ast.unparse(x) for b_ in st.body for x in ast.walk(b_) if isinstance(x, (ast.Attribute, ast.Subscript)) and isinstance(x.ctx, (ast.Store, ast.Del))}
+                for p_, a_ in subst.items():
+                    if any(isinstance(x, ast.Name) and x.id in stored for x in ast.walk(a_)) or \
+                            any(ast.unparse(x) in written for x in ast.walk(a_) if isinstance(x, (ast.Attribute, ast.Subscript))):
+                        raise _NotInlinable("an argument of the generator is rebound by the loop body")
+            except _NotInlinable as err:
+                self.report.append("loop over generator %s at line %d not dissolved: %s" % (h.name, st.lineno, err))
+                return None
+            sub = _Subst(rename, subst)
+            body = [sub.visit(copy.deepcopy(x)) for x in h.body]
+
+            class _Y(ast.NodeTransformer):
+                def visit_Expr(self, n):
+                    if isinstance(n.value, ast.Yield):
+                        v = n.value.value if n.value.value is not None else ast.Constant(value=None)
+                        first = ast.copy_location(ast.Assign(targets=[copy.deepcopy(st.target)], value=v), n)
+                        return [first] + [copy.deepcopy(x) for x in st.body]
+                    return n
+            out = []
+            for x in body:
+                r_ = _Y().visit(x)
+                out.extend(r_ if isinstance(r_, list) else [r_])
+            self.report.append("loop over generator %s at line %d read as the generator's own loops" % (h.name, st.lineno))
+            return [ast.fix_missing_locations(x) for x in prelude + out]
+
         def rewrite_stmt(st):
+            gl = gen_loop(st)
+            if gl is not None:
+                changed[0] = True
+                return rewrite_block(gl)
             # if (x := E): ...   ->   x = E; if x: ...      (only where E needs rewriting itself)
             if isinstance(st, ast.If) and isinstance(st.test, ast.NamedExpr) and isinstance(st.test.target, ast.Name) and \
                     (calls_in([st.test.value]) or isinstance(st.test.value, (ast.ListComp, ast.SetComp, ast.DictComp))):
@@ -560,7 +678,11 @@ class Inliner:
                         # a predicate with a body of its own stays a function: rules that judge predicates interpret it as one.
                         # A "predicate" that can raise is a validation step: its raise sites belong to the calling function.
                         raises = any(isinstance(x, ast.Raise) for x in ast.walk(h.fn))
-                        if not (raises and isinstance(st, ast.If) and st.test is call):
+                        # ... and one that is a few assignments in front of a single `return <expr>` has no control flow of its
+                        # own: in front of an `if` it reads as the statements it was extracted from
+                        straight = isinstance(st, ast.If) and len(h.body) >= 2 and isinstance(h.body[-1], ast.Return) and h.body[-1].value is not None and \
+                            all(isinstance(x, ast.Assign) and len(x.targets) == 1 and isinstance(x.targets[0], ast.Name) for x in h.body[:-1])
+                        if not (raises and isinstance(st, ast.If) and st.test is call) and not straight:
                             raise _NotInlinable("multi-statement predicate called in a condition")
                     prelude, e = self._expand_stmt_helper(h, call, recv, in_out_params(st, call, h))
                     if (nested or not hoistable) and prelude:
@@ -635,14 +757,14 @@ class Inliner:
 
         fn.body = rewrite_block(fn.body)
         # a helper whose own body was just rewritten (a helper calling a helper) is inlined with the rewritten body
-        for h in list(self.helpers.values()) + [x for d in self.nested.values() for x in d.values()]:
+        for h in list(self.helpers.values()) + list(self.gen_helpers.values()) + [x for d in self.nested.values() for x in d.values()]:
             if h.fn is fn:
                 body = list(fn.body)
                 if body and isinstance(body[0], ast.Expr) and isinstance(body[0].value, ast.Constant) and isinstance(body[0].value.value, str):
                     body = body[1:]
                 h.body = body
                 h.locals = _stored_names(fn) | set(h.params)
-                h.expr = body[0].value if len(body) == 1 and isinstance(body[0], ast.Return) and body[0].value is not None else None
+                h.expr = body[0].value if len(body) == 1 and isinstance(body[0], ast.Return) and body[0].value is not None and not h.gen else None
         local = self.nested.get(id(fn), {})
         if local:
             still = {n.id for n in ast.walk(fn) if isinstance(n, ast.Name) and isinstance(n.ctx, ast.Load)}
@@ -1100,8 +1222,25 @@ def _namedtuples_to_tuples(tree):
                 if isinstance(it, (ast.Tuple, ast.List)) and it.elts and all(isinstance(e, ast.Call) and isinstance(e.func, ast.Name) and e.func.id in classes for e in it.elts):
                     holders.add(n.target.id)
 
+        # ... or over a local bound once to such a literal; the elements of that local are records too
+        def is_records(it):
+            return isinstance(it, (ast.Tuple, ast.List)) and it.elts and all(isinstance(e, ast.Call) and isinstance(e.func, ast.Name) and e.func.id in classes for e in it.elts)
+        stores = {}
+        for n in _walk_own(fn):
+            if isinstance(n, ast.Name) and isinstance(n.ctx, (ast.Store, ast.Del)):
+                stores[n.id] = stores.get(n.id, 0) + 1
+        collections_ = set()
+        for n in _walk_own(fn):
+            if isinstance(n, ast.Assign) and len(n.targets) == 1 and isinstance(n.targets[0], ast.Name) and is_records(n.value) and stores.get(n.targets[0].id) == 1:
+                collections_.add(n.targets[0].id)
+        for n in _walk_own(fn):
+            if isinstance(n, (ast.For, ast.comprehension)) and isinstance(n.target, ast.Name) and isinstance(n.iter, ast.Name) and n.iter.id in collections_:
+                holders.add(n.target.id)
+
         class T(ast.NodeTransformer):
             def visit_Call(self, node):
+                if isinstance(node.func, ast.Attribute):
+                    node.func._callee = True
                 self.generic_visit(node)
                 if isinstance(node.func, ast.Name) and node.func.id in classes:
                     t = build(node.func.id, node)
@@ -1125,7 +1264,11 @@ def _namedtuples_to_tuples(tree):
                 self.generic_visit(node)
                 if isinstance(node.ctx, ast.Load) and node.attr in index_of and node.attr not in ambiguous:
                     base = node.value
-                    certain = isinstance(base, ast.Name) and base.id in holders
+                    if getattr(node, "_callee", False) and not (isinstance(base, ast.Name) and base.id in holders):
+                        return node       # x.remove(...) is a method call, whatever the fields of the record types are called
+                    certain = (isinstance(base, ast.Name) and base.id in holders) or \
+                        (isinstance(base, ast.Subscript) and isinstance(base.value, ast.Name) and base.value.id in collections_ and
+                         isinstance(base.slice, ast.Constant) and isinstance(base.slice.value, int))
                     plausible = node.attr not in _NX_ATTRS and not (isinstance(base, ast.Name) and base.id in ("self", "cls"))
                     if certain or plausible:
                         count[0] += 1
@@ -1165,6 +1308,19 @@ def _unroll_small_loops(tree):
                         out.add(id(x))
         return out
 
+    # module-level names bound once to a literal tuple of constants (and never rebound through `global`)
+    mod_literals = {}
+    mod_stores = {}
+    for st in tree.body:
+        for x in ast.walk(st) if not isinstance(st, (ast.FunctionDef, ast.ClassDef)) else []:
+            if isinstance(x, ast.Name) and isinstance(x.ctx, (ast.Store, ast.Del)):
+                mod_stores[x.id] = mod_stores.get(x.id, 0) + 1
+    has_global = any(isinstance(x, ast.Global) for x in ast.walk(tree))
+    for st in tree.body:
+        if isinstance(st, ast.Assign) and len(st.targets) == 1 and isinstance(st.targets[0], ast.Name) and isinstance(st.value, ast.Tuple) and \
+                st.value.elts and all(isinstance(e, ast.Constant) for e in st.value.elts) and mod_stores.get(st.targets[0].id) == 1 and not has_global:
+            mod_literals[st.targets[0].id] = st.value
+
     for fn in [n for n in ast.walk(tree) if isinstance(n, ast.FunctionDef)]:
         comp_names = in_comprehension_scope(fn)
         own = [n for n in _walk_own(fn) if id(n) not in comp_names]
@@ -1196,6 +1352,9 @@ def _unroll_small_loops(tree):
                     it = st.iter
                     if isinstance(it, ast.Name) and it.id in literals:
                         it = literals[it.id]
+                    elif isinstance(it, ast.Name) and it.id in mod_literals and it.id not in stores and \
+                            it.id not in [a.arg for a in fn.args.args + fn.args.kwonlyargs + fn.args.posonlyargs]:
+                        it = mod_literals[it.id]
                     tname = st.target.id
                     body_nodes = [x for b_ in st.body for x in ast.walk(b_)]
                     for x in body_nodes:
@@ -1203,10 +1362,19 @@ def _unroll_small_loops(tree):
                             x._comp_bound = True
                     used_after = False   # conservative: the loop variable must not be read outside the loop
                     reads_elsewhere = [x for x in own if isinstance(x, ast.Name) and x.id == tname and isinstance(x.ctx, ast.Load) and not any(x is y for y in body_nodes)]
+                    # the same name as the variable of other loops: the reads inside those loops are theirs
+                    others = [x for x in own if isinstance(x, ast.For) and x is not st and isinstance(x.target, ast.Name) and x.target.id == tname and
+                              not any(x is y for y in body_nodes) and not any(st is y for y in ast.walk(x))]
+                    if others and len(stores.get(tname, [])) == 1 + len(others):
+                        theirs = {id(y) for o in others for b_ in o.body for y in ast.walk(b_)}
+                        reads_elsewhere = [x for x in reads_elsewhere if id(x) not in theirs]
+                        only_loop_var = True
+                    else:
+                        only_loop_var = len(stores.get(tname, [])) == 1
                     if isinstance(it, (ast.Tuple, ast.List)) and 1 <= len(it.elts) <= 3 and all(simple(e) for e in it.elts) and len(st.body) <= 6 and \
                             not any(isinstance(x, (ast.Break, ast.Continue, ast.FunctionDef, ast.Lambda, ast.Return, ast.Yield)) for x in body_nodes) and \
                             not any(isinstance(x, ast.Name) and x.id == tname and isinstance(x.ctx, (ast.Store, ast.Del)) for x in body_nodes) and \
-                            len(stores.get(tname, [])) == 1 and not reads_elsewhere:
+                            only_loop_var and not reads_elsewhere:
                         # names assigned inside the body would be assigned twice: fine (sequential), they are ordinary locals
                         for e in it.elts:
                             class S(ast.NodeTransformer):
@@ -1375,6 +1543,69 @@ def import_foreign_helpers(tree, modname, raw_trees):
     return tree, report
 
 
+def _merge_local_tables(tree):
+    """T = {} ... T[k] = v ... OUTER.update(T), with T used for nothing else and OUTER not touched in between: the entries are
+    stored in OUTER directly (same keys, same values, same order).  The shape a loop body takes when it was moved into a helper
+    that returns its part of the table."""
+    n_done = 0
+    for fn in [x for x in ast.walk(tree) if isinstance(x, ast.FunctionDef)]:
+        def blocks(node):
+            for fld in ("body", "orelse", "finalbody"):
+                b = getattr(node, fld, None)
+                if isinstance(b, list) and b and isinstance(b[0], ast.stmt):
+                    yield b
+                    for st in b:
+                        if not isinstance(st, (ast.FunctionDef, ast.ClassDef)):
+                            yield from blocks(st)
+            for hnd in getattr(node, "handlers", []) or []:
+                yield hnd.body
+                for st in hnd.body:
+                    yield from blocks(st)
+        for block in list(blocks(fn)):
+            i = 0
+            while i < len(block):
+                st = block[i]
+                i += 1
+                if not (isinstance(st, ast.Assign) and len(st.targets) == 1 and isinstance(st.targets[0], ast.Name) and
+                        ((isinstance(st.value, ast.Dict) and not st.value.keys) or
+                         (isinstance(st.value, ast.Call) and isinstance(st.value.func, ast.Name) and st.value.func.id == "dict" and not st.value.args and not st.value.keywords))):
+                    continue
+                T = st.targets[0].id
+                j = None
+                for k in range(i, len(block)):
+                    x = block[k]
+                    if isinstance(x, ast.Expr) and isinstance(x.value, ast.Call) and isinstance(x.value.func, ast.Attribute) and x.value.func.attr == "update" and \
+                            len(x.value.args) == 1 and not x.value.keywords and isinstance(x.value.args[0], ast.Name) and x.value.args[0].id == T and \
+                            _attr_chain(x.value.func.value):
+                        j = k
+                        break
+                if j is None:
+                    continue
+                outer = block[j].value.func.value
+                outer_text = ast.unparse(outer)
+                root = outer_text.split(".")[0]
+                between = block[i:j]
+                uses = [x for x in ast.walk(fn) if isinstance(x, ast.Name) and x.id == T]
+                stores = [x for b_ in between for x in ast.walk(b_) if isinstance(x, ast.Subscript) and isinstance(x.ctx, ast.Store) and
+                          isinstance(x.value, ast.Name) and x.value.id == T]
+                if len(uses) != 2 + len(stores) or not stores:
+                    continue
+                touched = any((isinstance(x, (ast.Name, ast.Attribute)) and ast.unparse(x) == outer_text) or
+                              (isinstance(x, ast.Name) and x.id == root and isinstance(x.ctx, (ast.Store, ast.Del)))
+                              for b_ in between for x in ast.walk(b_))
+                if touched:
+                    continue
+                for x in stores:
+                    x.value = copy.deepcopy(outer)
+                del block[j]
+                del block[i - 1]
+                i -= 1
+                n_done += 1
+    if n_done:
+        ast.fix_missing_locations(tree)
+    return n_done
+
+
 def inline_module(tree, modname):
     n_rec = _namedtuples_to_tuples(tree)
     n_unroll = _unroll_small_loops(tree)
@@ -1386,6 +1617,9 @@ def inline_module(tree, modname):
     tree = jt.run(tree)
     inl = Inliner(tree, modname)
     tree = inl.run()
+    n_tab = _merge_local_tables(tree) if inl.report else 0
+    if n_tab:
+        inl.report.append("%d local tables merged with update() read as direct stores" % n_tab)
     if jt.n:
         ast.fix_missing_locations(tree)
         inl.report.append("%d string joins over a comprehension read as accumulation loops" % jt.n)
